@@ -156,7 +156,7 @@ pub fn run_script(s: &Script, rep: &mut Report, seen: &mut BTreeSet<Hash>, c07: 
                             has_atr && staked > 0 && parent.treasury as u128 / staked >= 1
                         };
                         let what = if supply { "supply-panic".to_string() } else if ok_a { "twin-rejects-produced-block".to_string() } else if payout_case { "producer-rejects-own-block/rebroadcast-with-treasury-payout".to_string() } else { "producer-rejects-own-block/other".to_string() };
-                        rep.violate(&what, format!("round {} {:?} (height {}): {}", ri, r, p.tip_id + 1, msg), json!({"ctx": ctx, "round": ri, "block": hex::encode(&bytes)}));
+                        rep.violate_inst(&what, &format!("{}|{}", ctx, ri), format!("round {} {:?} (height {}): {}", ri, r, p.tip_id + 1, msg), json!({"ctx": ctx, "round": ri, "block": hex::encode(&bytes)}));
                     }
                     return RunResult { produced };
                 }
